@@ -190,6 +190,8 @@ func checkC06(ck *Check) {
 		}
 	}
 	ck.cond(u != nil, "C06.R6", "scan/u", "", funcID(fn), "u = math.Max(cpu%, mem%) of the two results of calcPercentUsage", fmt.Sprint(u), "the bands are not evaluated on the larger of the two utilisations")
+	// … and those two results are the exact quotients (no rounding / scaling before the band test)
+	ck.percentFormula("C06.R6")
 	if u == nil {
 		return
 	}
@@ -555,6 +557,7 @@ func checkC08(ck *Check) {
 	ck.sortBeforeLoop("C08.R1", a.TaintLoop, "A-TAINT", 1, "CreationTimestamp(i).Before(CreationTimestamp(j)) (oldest first)")
 	ck.boundedEffectLoop("C08.R4", a.TaintLoop, "A-TAINT")
 	ck.actionTargets("C08.R2")
+	ck.nodeListImmutability("C08.R2")
 }
 
 // ---------------------------------------------------------------------------------------------
@@ -682,6 +685,7 @@ func checkC07(ck *Check) {
 	}
 	// R3 loop + R4 comparator
 	ck.boundedEffectLoop("C07.R3", a.UntaintLoop, "A-UNTAINT")
+	ck.untaintAgreement("C07.R3")
 	ck.sortBeforeLoop("C07.R4", a.UntaintLoop, "A-UNTAINT", -1, "CreationTimestamp(j).Before(CreationTimestamp(i)) (newest first)")
 	// R5 typestate
 	ck.cacheTypestate("C07.R5")
